@@ -33,6 +33,8 @@ type params struct {
 	HB          bool
 	SR          bool
 	Incoming    bool
+	SlowClose   bool // the transports take 2 s (virtual) to close after unblocking their I/O
+	Late        bool // an ArduPilot heartbeat of a new sender arrives while Close is in progress
 	NoClose     bool // dry run measuring the length of the Close-free run
 	L           int
 }
@@ -51,6 +53,12 @@ func (p params) name() string {
 	if p.Incoming {
 		s += "/in"
 	}
+	if p.Late {
+		s += "/late"
+	}
+	if p.SlowClose {
+		s += "/slowclose"
+	}
 	return s
 }
 
@@ -63,18 +71,18 @@ type exec struct {
 	pconn    *vnet.FakePacketConn
 	custom   *vnet.FakeConn
 
-	initErr       error
-	baseSteps     int
-	closeReturned bool
-	closeCalled   bool
-	consumerEnded bool
+	initErr           error
+	baseSteps         int
+	closeReturned     bool
+	closeCalled       bool
+	consumerEnded     bool
 	consumerSawClosed bool
-	writersDone   int
-	writers       int
-	afterDone     bool
-	eventsClosed  bool
-	problems      []string
-	finished      bool
+	writersDone       int
+	writers           int
+	afterDone         bool
+	eventsClosed      bool
+	problems          []string
+	finished          bool
 }
 
 func incoming() [][]byte {
@@ -92,6 +100,9 @@ func (e *exec) newConn(name string) *vnet.FakeConn {
 	}
 	if e.p.WriteBlocks {
 		c.WriteBlockAt = 1
+	}
+	if e.p.SlowClose {
+		c.CloseDelay = 2 * time.Second
 	}
 	e.conns = append(e.conns, c)
 	return c
@@ -229,7 +240,7 @@ func (e *exec) Body() {
 		e.writers = 1
 		vmc.GoApp("writer", func() {
 			hb := &common.MessageHeartbeat{Type: 2}
-			n.WriteMessageAll(hb) //nolint
+			n.WriteMessageAll(hb)                                                                                                               //nolint
 			n.WriteFrameAll(&frame.V2Frame{SequenceNumber: 5, SystemID: 77, ComponentID: 1, Message: &common.MessagePing{Seq: 1}, Checksum: 1}) //nolint
 			if len(e.log.Chans) > 0 {
 				n.WriteMessageTo(e.log.Chans[0], hb)     //nolint
@@ -241,6 +252,22 @@ func (e *exec) Body() {
 	if p.NoClose {
 		return
 	}
+	if p.Late && len(e.conns) > 0 {
+		// an ArduPilot heartbeat of a new sender arrives while Close is in progress, at every
+		// step offset: the stream-request module may already be stopped when the reader sees it
+		k := vmc.Choose(16, "late-heartbeat-after-steps")
+		vmc.GoApp("late-peer", func() {
+			vmc.AwaitUrgent("close called", func() bool { return e.closeCalled || vmc.Idle() })
+			target := vmc.Steps() + k
+			vmc.AwaitUrgent("late-heartbeat", func() bool { return vmc.Steps() >= target || vmc.Idle() })
+			hb := &common.MessageHeartbeat{Type: 1, Autopilot: 3, SystemStatus: 4, MavlinkVersion: 3}
+			for _, c := range e.conns {
+				if c.Handed || c == e.custom {
+					c.Feed(sx.FrameOf(true, 0, 99, 1, hb, nil, 0, 0))
+				}
+			}
+		})
+	}
 	vmc.GoApp("closer", func() {
 		target := e.baseSteps + j
 		// the trigger also fires when the system goes idle or 3 s of virtual time have passed
@@ -251,14 +278,35 @@ func (e *exec) Body() {
 		})
 		e.closeCalled = true
 		n.Close()
+		// "when it returns ... listening ports and accepted connections are released": checked at
+		// the very moment Close returns. (Goroutines: a channel goroutine signals the wait group
+		// one statement before it returns, so "has ended" is checked as "ends without any further
+		// stimulus" below, not at this instant.)
+		for _, c := range e.conns {
+			if c != e.custom && c.Handed && !c.IsClosed() {
+				e.problems = append(e.problems, "connection "+c.Name+" is still open at the moment Close returns")
+			}
+			if c.CloseCalls > c.CloseReturned {
+				e.problems = append(e.problems, "connection "+c.Name+" is still being closed (its Close call has not returned) at the moment Node.Close returns: not released yet")
+			}
+		}
+		if e.custom != nil && e.chOpened(e.custom) && e.custom.CloseCalls == 0 {
+			e.problems = append(e.problems, "the custom transport has not been closed at the moment Close returns")
+		}
+		if e.listener != nil && !e.listener.IsClosed() {
+			e.problems = append(e.problems, "listener still open at the moment Close returns")
+		}
+		if e.pconn != nil && !e.pconn.IsClosed() {
+			e.problems = append(e.problems, "packet conn still open at the moment Close returns")
+		}
 		e.closeReturned = true
 	})
 	vmc.Await("close returned", func() bool { return e.closeReturned })
 	// Write calls following the close return
 	hb := &common.MessageHeartbeat{Type: 2}
-	n.WriteMessageAll(hb)                                                                                                   //nolint
-	n.WriteFrameAll(&frame.V2Frame{SystemID: 77, ComponentID: 1, Message: &common.MessagePing{Seq: 1}})                    //nolint
-	n.WriteMessageExcept(nil, hb)                                                                                           //nolint
+	n.WriteMessageAll(hb)                                                                                                      //nolint
+	n.WriteFrameAll(&frame.V2Frame{SystemID: 77, ComponentID: 1, Message: &common.MessagePing{Seq: 1}})                        //nolint
+	n.WriteMessageExcept(nil, hb)                                                                                              //nolint
 	n.WriteFrameTo(nil, &frame.V2Frame{SystemID: 77, ComponentID: 1, Message: &message.MessageRaw{ID: 4, Payload: []byte{1}}}) //nolint
 	e.afterDone = true
 	// the event channel is closed: ranging over it ends
@@ -298,6 +346,9 @@ func (e *exec) Body() {
 	e.finished = true
 	vmc.Finish()
 }
+
+// chOpened: the transport was used by a channel (some Read / Write / deadline call reached it).
+func (e *exec) chOpened(c *vnet.FakeConn) bool { return len(c.IO) > 0 }
 
 func (e *exec) Check(r *vmc.Result) string {
 	if e.p.NoClose {
@@ -373,6 +424,12 @@ func variants(thorough bool) []sx.Variant {
 		ps = append(ps, params{Kind: k, Consumer: "drain", Writer: "none", HB: true, Incoming: true})
 		ps = append(ps, params{Kind: k, Consumer: "stop1", Writer: "racing", HB: true, SR: true, Incoming: true})
 		ps = append(ps, params{Kind: k, Consumer: "drain", Writer: "racing", HB: true, SR: true, Incoming: true, WriteBlocks: true})
+	}
+	for _, k := range []string{"custom", "tcpserver"} {
+		ps = append(ps, params{Kind: k, Consumer: "drain", Writer: "none", SR: true, Late: true})
+	}
+	for _, k := range []string{"custom", "serial", "tcpserver"} {
+		ps = append(ps, params{Kind: k, Consumer: "drain", Writer: "racing", SlowClose: true, Incoming: true})
 	}
 	ps = append(ps, params{Kind: "initfail", Consumer: "drain"}, params{Kind: "baddialect", Consumer: "drain"})
 
